@@ -24,8 +24,11 @@ archive)
                                        for the 2nd..4th value, whose bytes start where the previous value ended);
                   mixed-sequence       the same with one value of every paired type of a unit in one archive
   R-RT:image      encoding-is-determined-by-the-value  every byte of the archive is a count or a byte of the written
-                                       value: no indeterminate memory (padding of a by-value copy, an uninitialised local)
-                                       and no part of an address reaches the archive - equal values have equal encodings
+                                       value: no indeterminate memory (an uninitialised local) and no part of an address
+                                       reaches the archive.  The padding of a scalar's native image is don't-care: for a
+                                       scalar whose IR store size is smaller than its alloc size (x86_fp80: 10 of 16, read
+                                       off the IR signatures, not off a name) the bytes [store size, alloc size) behind its
+                                       value bytes may hold anything
   R-RT:writer     buffer-writer-same-bytes  through a binary_buffer_writer over an exactly sized buffer the same bytes
                                        arrive and the write cursor ends at the end (binary_serializer_basic pairs)
   R-RT:api        api:completes / api:reads-only-own-bytes / api:value-identity   the functional entry points:
@@ -115,10 +118,11 @@ class Desc:
 class Scalar(Desc):
     kind = 'scalar'
 
-    def __init__(self, name, size):
+    def __init__(self, name, size, valbytes=None):
         self.name = name
         self.size = size
-        self.valbytes = 10 if name == 'long double' else size
+        # bytes a load / store of the scalar's IR type touches; the rest of the object is padding of its native image
+        self.valbytes = size if valbytes is None else valbytes
 
 
 class Str(Desc):
@@ -168,6 +172,7 @@ class Types:
             self.by_name.setdefault(nrm(d['name']), []).append(d)
             self.by_scoped.setdefault(nrm(d['scope'] + d['name']), []).append(d)
         self.cache = {}
+        self.scalar_ir = self._scalar_ir_types(mod)
         nb = self.di('_Rb_tree_node_base', need=False)
         if nb is not None:
             offs = {m['name']: m['off'] for m in nb['members']}
@@ -175,6 +180,50 @@ class Types:
                 if n not in offs:
                     raise AnalysisBroken('member %s of std::_Rb_tree_node_base not found in the debug info' % n)
                 vm.RB_OFF[k] = offs[n]
+
+    @staticmethod
+    def _scalar_ir_types(mod):
+        """C++ scalar type name -> (store size, alloc size) of the IR type it is lowered to, read off the signatures of the
+        unit (a parameter 'T' / 'const T&' / 'T*' next to its IR type).  A scalar whose store size is smaller than its
+        alloc size (x86_fp80: 10 of 16) has padding bytes in its native image"""
+        import c09_roundtrip_vm as _vm
+        lay = _vm.Layout(mod)
+        out = {}
+        for f in mod.functions.values():
+            dt = f.d.get('ditypes')
+            if not dt:
+                continue
+            ps = f.params
+            names = dt[1:]
+            if ps and ps[0].get('sret') and len(names) == len(ps) - 1:
+                ps = ps[1:]
+            if len(names) != len(ps):
+                continue
+            for d, p in zip(names, ps):
+                tn = d['type']
+                ty = p['ty']
+                ref = tn.rstrip().endswith(('&', '*'))
+                base = nrm(strip_cvref(tn.rstrip().rstrip('*').rstrip('&')))
+                if base not in SCALARS:
+                    continue
+                if ref and ty.get('k') == 'ptr' and ty.get('elemsize'):
+                    irs, alloc = ty['elem'], ty['elemsize']
+                elif not ref and ty.get('k') in ('int', 'fp') and ty.get('size'):
+                    irs, alloc = ty['s'], ty['size']
+                else:
+                    continue
+                if irs.startswith(('%', '{', '[')) or irs.endswith('*'):
+                    continue
+                try:
+                    st = lay.load_size(irs)
+                except AnalysisBroken:
+                    continue
+                prev = out.get(base)
+                if prev is not None and prev != (st, alloc):
+                    out[base] = (alloc, alloc)       # contradictory signatures: no padding assumed (strict)
+                else:
+                    out[base] = (st, alloc)
+        return out
 
     def di(self, name, scoped=False, need=True, size=None):
         c = (self.by_scoped if scoped else self.by_name).get(name, [])
@@ -203,6 +252,9 @@ class Types:
 
     def _parse(self, n, size_hint):
         if n in SCALARS:
+            st = self.scalar_ir.get(n)
+            if st is not None and st[1] == SCALARS[n] and 0 < st[0] <= st[1]:
+                return Scalar(n, SCALARS[n], st[0])
             return Scalar(n, SCALARS[n])
         if n in STRING_NAMES:
             d = self.di(STRING_NAMES[1])
@@ -341,6 +393,7 @@ class Heap:
         self.m = m
         self.assume = assume or {}
         m.key_rank = {}
+        m.padded = {}          # value bytes of a scalar with padding -> number of padding bytes of its native image
         m.key_syms = set()
         m.next_rank = 0
         m.foreign_keys = []
@@ -358,6 +411,8 @@ class Heap:
         if k == 'scalar':
             cells = [self.sym('%s#%d' % (path, j)) for j in range(desc.valbytes)]
             m.write_cells(p, cells + [None] * (desc.size - desc.valbytes))
+            if desc.size > desc.valbytes:
+                m.padded[tuple(cells)] = desc.size - desc.valbytes
             return ('sc', tuple(cells))
         if k == 'str':
             n = sh
@@ -983,9 +1038,11 @@ def run_items(ctx, arch, items, assume, stats, check_image=True):
             raise Fail('reads-only-own-bytes' if n == 0 else 'sequence', '%s%s: the reader touched bytes [%d, %d) of the archive, the '
                        'encoding of the value is [%d, %d)' % (st, seq, lo, hi, begin, ends[n]))
         begin = ends[n]
-    # the encoding is a function of the value: every byte of the archive is a constant (a count) or a byte of the written
-    # value - never indeterminate memory (padding of a by-value copy, an uninitialised local), never part of an address
-    bad = [k for k, c in enumerate(cells) if not isinstance(c, (int, Sym))] if check_image else []
+    # every byte of the archive is a constant (a count) or a byte of the written value - never indeterminate memory (an
+    # uninitialised local), never part of an address; the padding of a scalar's native image (IR store size < alloc size)
+    # has no prescribed content and is skipped
+    pad = padding_positions(m, cells)
+    bad = [k for k, c in enumerate(cells) if not isinstance(c, (int, Sym)) and k not in pad] if (check_image and not assume) else []
     if bad:
         k = bad[0]
         n = [i for i, e in enumerate(ends) if k < e][0]
@@ -999,12 +1056,29 @@ def run_items(ctx, arch, items, assume, stats, check_image=True):
             wh = '%s:%d' % (fr[1], fr[2])
             break
         raise Fail('encoding-is-determined-by-the-value',
-                   '%s: byte %d of its encoding (offset %d of the archive, %d such byte(s) in all) is %s: two encodings of the same '
-                   'value differ, and memory that is not part of the value is disclosed%s'
+                   '%s: byte %d of its encoding (offset %d of the archive, %d such byte(s) in all) is %s, which is neither a count nor a byte of '
+                   'the value nor padding of a scalar\'s native image%s'
                    % (shape_text(desc, specs[n][1]), k - (ends[n - 1] if n else 0), k, len(bad), show_cell(cells[k]),
                       ('; the byte was put there by %s' % chain_text(tag)) if tag else ''), wh)
     note_stats(stats, m)
-    return {'bytes': ends[-1] if ends else 0, 'cells': cells}
+    return {'bytes': ends[-1] if ends else 0, 'cells': cells, 'pad': pad}
+
+
+def padding_positions(m, cells):
+    """archive offsets that hold the padding of a scalar's native image: a scalar whose IR store size is smaller than
+    its alloc size (x86_fp80: 10 of 16) is written as its whole object, the bytes behind its value bytes have no
+    prescribed content (they may be anything, also stack or heap garbage) and no clause looks at them"""
+    out = set()
+    if not m.padded:
+        return out
+    first = {}
+    for vb, npad in m.padded.items():
+        first.setdefault(vb[0], []).append((vb, npad))
+    for k, c in enumerate(cells):
+        for vb, npad in first.get(c, ()) if isinstance(c, Sym) else ():
+            if tuple(cells[k:k + len(vb)]) == vb:
+                out.update(range(k + len(vb), min(len(cells), k + len(vb) + npad)))
+    return out
 
 
 def note_stats(stats, m):
@@ -1037,8 +1111,10 @@ def run_buffer_writer(ctx, arch, root, desc, variants, assume, stats, want):
             f.text = '%s through a binary_buffer_writer over a buffer of exactly the %d bytes the string writer produced: %s' % (
                 shape_text(desc, sh), len(want), f.text)
             raise f
-    if buf.cells != want:
-        j = [k for k in range(len(want)) if buf.cells[k] != want[k]][0]
+    pad = padding_positions(m, want)
+    diffs = [k for k in range(len(want)) if buf.cells[k] != want[k] and k not in pad]
+    if diffs:
+        j = diffs[0]
         raise Fail('buffer-writer-same-bytes', 'byte %d written through a binary_buffer_writer is %s, through the '
                    'binary_string_writer it is %s' % (j, show_cell(buf.cells[j]), show_cell(want[j])))
     cur = m.load(('p', w.id, arch.bw_ptr), 8, PTR)
@@ -1345,11 +1421,13 @@ def block_rules(rep, ctx, arch, stats):
     bd = t.di('buffer')
     o_buf, o_sz, bsize = t.member(bd, 'buf')['off'], t.member(bd, 'sz')['off'], bd['size']
     # a scalar that follows the block: its decoding shows that the block was skipped completely
-    sent = [r for r in ROOTS_CACHE[id(mod)] if r['basic'] and r['type'] == 'i32']
+    sent = [r for r in ROOTS_CACHE[id(mod)] if r['basic'] and '%' not in r['type'] and (r['elem'].get('elemsize') or 0) >= 2]
     if not sent:
-        raise AnalysisBroken('no serialize<binary_serializer_basic,int> instantiation to follow a counted block')
-    sent = sent[0]
+        raise AnalysisBroken('no serialize<binary_serializer_basic, scalar> instantiation to follow a counted block')
+    sent = sorted(sent, key=lambda r: (r['type'] != 'i32', r['label']))[0]       # an int when there is one
     sdesc = root_desc(ctx, sent)
+    if sdesc.kind != 'scalar':
+        raise AnalysisBroken('the value chosen to follow a counted block is not a scalar: %s' % sent['label'])
     writers = [('igris_verif_w_cbuf', 'binary_serializer_basic::dump(const char*,uint16_t)', 'cbuf'),
                ('igris_verif_w_buffer', 'binary_serializer_basic::dump(igris::buffer)', 'buffer'),
                ('igris_verif_w_sv', 'binary_serializer_basic::dump(std::string_view)', 'sv')]
@@ -1454,7 +1532,7 @@ def block_rules(rep, ctx, arch, stats):
             f.clause = 'R:block-skipped-completely'
             f.text = pre + f.text
             raise f
-        df = diff(sdesc, s_spec, h.extract(sdesc, ('p', s_dst.id, 0)), 'the int that follows the block')
+        df = diff(sdesc, s_spec, h.extract(sdesc, ('p', s_dst.id, 0)), 'the %s that follows the block' % sdesc.name)
         if df:
             raise Fail('R:block-skipped-completely', pre + df)
         stats['steps'] = stats.get('steps', 0) + m.steps
@@ -1562,7 +1640,8 @@ def run_ext(rep, repo, tier):
         'is compared symbol by symbol (scalar bytes, lengths, element order, map entries), the read cursor must stand at '
         'the end of the value\'s own encoding, the reader must not touch a byte outside it, four values (and all paired '
         'types of a unit) written one after the other must come back in order, a binary_buffer_writer must produce the '
-        'same bytes as the string writer; counted blocks: payload 0..3 into destinations 0..4 deliver exactly '
+        'same bytes as the string writer, every archive byte is a count or a byte of the value (the padding of a scalar\'s '
+        'native image - IR store size below alloc size, x86_fp80 - is don\'t-care); counted blocks: payload 0..3 into destinations 0..4 deliver exactly '
         'min(len,max) bytes, leave the rest of the destination alone, skip the remainder (the int that follows decodes), '
         'shrink the writable buffer / aim the settable buffer at the payload. libstdc++ is interpreted from its own IR on '
         'these shapes; nothing is executed and contents are never numbers (control that depends on contents is explored '
